@@ -155,6 +155,14 @@ def file_job(job):
             for (r, c), v in list(zip(pos, values))[:half:7]:
                 tb.write(r, c, v)
         doc.save(path)
+        if idx % 3 == 2 and len(values) > 20:
+            # a saved document is opened, edited further and saved again: values read from the file and values written now
+            # must both be in the second file
+            docr = Document(path)
+            tbr = docr.sheets[0].tables[0]
+            for (r, c), v in list(zip(pos, values))[::5]:
+                tbr.write(r, c, v)
+            docr.save(path)
         doc2 = Document(path)
         tb2 = doc2.sheets[0].tables[0]
         for (r, c), v in zip(pos, values):
